@@ -8,8 +8,8 @@ from harness import zones as Z
 
 ID = "C05"
 BACKENDS = ("py", "rs")
-GEN_MODULES = ()
-MIN_THEOREMS = 30
+GEN_MODULES = ("DTArith",)
+MIN_THEOREMS = 33
 US = D.US
 DAY = 86400 * US
 YMAX = Z.YMAX_QUICK
